@@ -994,8 +994,9 @@ func c17Laws(r *Run, c *c17Case, obs []c17StepObs) {
 		// comments
 		lost := c17MultisetMinus(c17CommentLines(prev), c17CommentLines(after))
 		if len(lost) > 0 {
-			other := c17MultisetMinus(lost, c17TrailingComments(prev))
-			if len(other) == 0 {
+			// since /repo f15d834 the trailing comments are kept too: every lost comment line is a violation
+			// (the class still tells a loss confined to the trailing block from any other)
+			if other := c17MultisetMinus(lost, c17TrailingComments(prev)); len(other) == 0 {
 				viol("comments_kept", "trailing-comment-dropped", fmt.Sprintf("step %d %v dropped the trailing comment lines %q", i, o.cli(), lost))
 			} else {
 				viol("comments_kept", "comment-dropped:"+o.Kind, fmt.Sprintf("step %d %v dropped the comment lines %q (not trailing: %q)", i, o.cli(), lost, other))
